@@ -156,7 +156,30 @@ SIM_SCENARIO(scen_c11, "c11", "C11", 1500000, 6000) {
             }
         });
     }
+    // observer: while the others grow the vector, every index below size() is backed by an allocated segment
+    // (at(i) does not throw for i < size(), capacity() >= size()); in the fault modes at() may throw, but a traversal
+    // of [begin(), end()) must stay inside allocated memory
+    bool growers_done = false;
+    int observer = sim::spawn([&] {
+        uint64_t x = 88172645463325252ull;
+        while (!growers_done) {
+            size_t n = v->size(), cap = v->capacity();
+            SIM_CHECK(cap >= n || !strict, "oracle:size", "size() == %zu exceeds capacity() == %zu during growth", n, cap);
+            for (int k = 0; k < 3 && n; ++k) {
+                x ^= x << 13; x ^= x >> 7; x ^= x << 17;
+                size_t i = k == 0 ? n - 1 : (size_t)(x % n);
+                try { const Elem& e = v->at(i); (void)e.value; }
+                catch (std::exception& ex) {
+                    if (strict) sim::fail("oracle:size-not-backed", "during growth size() was %zu but at(%zu) threw '%s': an index below size() has no allocated segment", n, i, ex.what());
+                    sim::probe("at-threw-during-faulty-growth");
+                }
+            }
+            sim::point(sim::K_YIELD, nullptr);
+        }
+    }, "observer");
     hx::run_fibers(fns);
+    growers_done = true;
+    sim::join(observer);
     vf.armed = false;
     if (strict) {
         // returned ranges are pairwise disjoint, contiguous, and tile [prefill, size())
@@ -184,6 +207,8 @@ SIM_SCENARIO(scen_c11, "c11", "C11", 1500000, 6000) {
         for (size_t i = 0; i < n && i < 80; ++i) {
             try { const Elem& e = v->at(i); (void)e.value; } catch (std::exception&) { sim::probe("at-threw-after-failure"); }
         }
+        // a traversal of [begin(), end()) stays inside allocated segments (a hole left by the failed allocation bounds size())
+        { size_t seen = 0; uint64_t acc = 0; for (auto it = v->begin(); it != v->end() && seen < 200; ++it, ++seen) acc += (*it).value; (void)acc; }
         for (size_t i = 0; i < (size_t)prefill && i < n; ++i) {
             try { SIM_CHECK(v->at(i).value == 7000 + i, "oracle:element-value", "[mode=%s] prefilled element %zu damaged by a failed growth", mt, i); } catch (std::exception&) {}
         }
